@@ -11,6 +11,7 @@ FRAGS = ['whole', 'mixed', 'uniform', 'boundary', 'one']
 
 
 def pick_size(g, maxdata, big):
+    md = min(maxdata, max(big, 64))
     c = g.int(0, 11)
     if c == 0:
         return 0
@@ -21,11 +22,11 @@ def pick_size(g, maxdata, big):
     if c <= 6:
         return g.int(65, 3000)
     if c == 7:
-        return max(0, maxdata + g.int(-2, 2))
+        return max(0, md + g.int(-2, 2))
     if c == 8:
-        return g.int(maxdata, 3 * maxdata) if big else g.int(100, 5000)
+        return g.int(md, 3 * md) if big > 5000 else g.int(100, 5000)
     if c == 9:
-        return g.pick([65535, 65536, 65537, 2047, 2048, 2049, 4095, 4096, 4097]) if big else g.int(1, 300)
+        return g.pick([65535, 65536, 65537, 2047, 2048, 2049, 4095, 4096, 4097]) if big >= 65537 else g.int(1, 300)
     return g.int(1, big if big > 1 else 1)
 
 
@@ -93,6 +94,8 @@ def add_file(g, d, big, path=None):
     recs = []
     for _ in range(g.int(1, 4)):
         recs.append(g.pick([65536, 65536, 65535, 1, 2, 7, 8, 9, 100, 4096, g.int(1, 65536)]))
+    minrec = size // 1500 + 1
+    recs = [min(65536, max(r, minrec)) for r in recs]
     d['fs'][path] = {'mode': g.pick([0o100644, 0o100755, 0o100600, 0xFFFFFFFF, 0x80000000]), 'mtime': g.pick([0, 1, 1500000000, 0x7FFFFFFF, 0x80000000, 0xFFFFFFFF, g.int(0, 0xFFFFFFFF)]),
                   'content': {'seed': g.int(0, 1 << 30), 'size': size, 'alpha': g.pick(['bin', 'bin', 'zero', 'ascii', 'ff'])}, 'records': recs}
     return path
@@ -194,6 +197,13 @@ def session(seed, kinds, nmax=5, big=20000, api=None):
     d = gen_device(g, big)
     ops, total = gen_ops(g, d, kinds, g.int(1, nmax), big)
     cfg = gen_config(g, total)
+    sync_bytes = sum(d['fs'][op['path']]['content']['size'] for op in ops if op['op'] == 'pull' and op['path'] in d['fs'])
+    sync_bytes += sum(sum(20 + len(e[0]) // 2 for e in d['dirs'].get(op['path'], [])) for op in ops if op['op'] == 'list')
+    for plan in d['cut_plans']:
+        if plan['policy'] == 'one' and sync_bytes > 3000:
+            plan['policy'] = 'random'
+        if plan['policy'] == 'tiny' and sync_bytes > 40000:
+            plan['policy'] = 'straddle'
     scn = {'api': api or g.pick(['sync', 'async']), 'transport': 'mem', 'device': d, 'config': cfg,
            'actors': [[timeouts(g, {'op': 'connect'})] + ops], 'object': {'banner': g.pick(['simhost', 'h', 'höst'])}}
     if g.chance(0.3):
